@@ -117,6 +117,20 @@ theorem expf_nan (L : Lane32Ops) (x : UInt32)
     (hx : isNaN32 x = true) (hgt : L.gt x expf_maxlogf = false) (hle : L.le x expf_minlogf = false) :
     isNaN32 (esl_sse_expf_lane L x) = true := Simd.expf_nan L x hsub haddL haddR hmulL hx hgt hle
 
+/-- non-vacuity of the `expf` hypotheses: an arithmetic record that propagates NaNs and whose comparisons are false on NaN -/
+def nanOps : Lane32Ops :=
+  { add_ps := fun a b => if isNaN32 a then a else b, sub_ps := fun a _ => a, mul_ps := fun a _ => a,
+    cvtepi32_ps := id, cvttps_epi32 := id,
+    lt := fun a b => !isNaN32 a && !isNaN32 b && decide (a.toNat < b.toNat),
+    gt := fun a b => !isNaN32 a && !isNaN32 b && decide (a.toNat > b.toNat),
+    le := fun a b => !isNaN32 a && !isNaN32 b && decide (a.toNat ≤ b.toNat) }
+example : isNaN32 0x7fc00000 = true ∧ nanOps.gt 0x7fc00000 expf_maxlogf = false ∧ nanOps.le 0x7fc00000 expf_minlogf = false := by decide
+example : isNaN32 (esl_sse_expf_lane nanOps 0x7fc00000) = true :=
+  expf_nan nanOps 0x7fc00000 (fun a _ h => h) (fun a b h => by simp [nanOps, h]) (fun a b h => by simp only [nanOps]; split <;> simp_all)
+    (fun a _ h => h) (by decide) (by decide) (by decide)
+example : nanOps.gt 0xc2b0c0a6 expf_maxlogf = true ∧ nanOps.le 0xc2b0c0a6 expf_minlogf = false := by decide   -- (toy order on patterns)
+example : nanOps.le 0x00000000 expf_minlogf = true := by decide
+
 /- FULL STATEMENT of part B not proved (kept visible): for every normal positive `x`, `|esl_sse_logf x - logf x| ≤ few ulp`, and for
    every `minlogf < x ≤ maxlogf`, `|esl_sse_expf x - expf x| ≤ few ulp` (0 accepted where the true result is subnormal). libm and IEEE
    rounding are opaque to the kernel; this part is MEASURED: quick tier on a stratified sample, thorough tier on all 2^32
